@@ -8,6 +8,7 @@ import (
 	"crypto/elliptic"
 	"crypto/x509"
 	"crypto/x509/pkix"
+	"encoding/asn1"
 	"encoding/pem"
 	"time"
 
@@ -17,11 +18,15 @@ import (
 	"github.com/google/go-tdx-guest/zzvp/q"
 )
 
+// symTime: an instant with symbolic seconds and symbolic nanoseconds.
 func symTime(name string) time.Time {
 	s := vp.I64(name)
 	vp.Assume(s >= 0)
 	vp.Assume(s <= 1<<40)
-	return time.Unix(s, 0)
+	ns := vp.I64(name + "_nsec")
+	vp.Assume(ns >= 0)
+	vp.Assume(ns <= 999999999)
+	return vp.MkTime(s, ns)
 }
 
 // mkCert: a certificate all of whose attributes that the verifier looks at are inputs.
@@ -36,6 +41,7 @@ func mkCert(p string) *x509.Certificate {
 		NotBefore:          symTime(p + "_notbefore"),
 		NotAfter:           symTime(p + "_notafter"),
 		SerialNumber:       newSerial(p + "_serial"),
+		SubjectKeyId:       vp.Bytes(p+"_skid", 4),
 		IsCA:               vp.Bool(p + "_isca"),
 	}
 	vp.GhostSet(c, "id", vp.U64(p+"_certid"))
@@ -97,6 +103,10 @@ func mkExts(p string) *pcs.PckExtensions {
 // nTrusted certificates in the caller's pool (0: nil pool, embedded root).
 func mkPKI(nTrusted int, tail []byte) *pki {
 	w := &pki{leaf: mkCert("leaf"), inter: mkCert("inter"), root: mkCert("root")}
+	if vp.Bool("leaf_sgx_extension_marked_critical") {
+		// a critical extension crypto/x509 does not handle: path validation refuses the certificate
+		w.leaf.UnhandledCriticalExtensions = []asn1.ObjectIdentifier{{1, 2, 840, 113741, 1, 13, 1}}
+	}
 	w.exts = mkExts("leaf")
 	vp.GhostSet(w.leaf, "sgx-extensions", &extGhost{exts: w.exts})
 	w.chainBytes = pemChain("chain", []*pem.Block{
